@@ -724,7 +724,8 @@ def vc_merge(ctx):
         return
     fr = iteration_frame(it, sites[0])
     rc = Reach(facts, body, Evaluator(facts))
-    ok = fr is not None and rc.must_pass(sites, start=fr[0], stops=(fr[1],)) and rc.must_pass([fr[1]])
+    ok = fr is not None and rc.must_pass(sites, start=fr[0], stops=(fr[1],)) and \
+        (rc.must_pass([fr[1]]) or must_pass_unless_noop(facts, body, it, [fr[1]], {'other': (2, ())}))
     ctx.check(ok, 'merge', body, 'every dot of other reaches self.apply', 'a dot of other can be skipped by merge', line=block_line(it, sites[0]))
 
 
